@@ -12,7 +12,7 @@ from .explorer import EX, Unsupported, explore_iter
 
 PID = "C12"
 _G = {}
-KINDS = ("valid", "valid2", "valid_t", "fast_first", "unknown_pgn", "unsupported", "malformed", "rejected", "blank")
+KINDS = ("valid", "valid2", "valid_t", "valid_aa55", "fast_first", "unknown_pgn", "unsupported", "malformed", "rejected", "noise", "blank")
 CBK = ("ok", "raises", "slow")
 
 
@@ -28,6 +28,10 @@ def packet(N, client, kind, src):
         # Yacht Devices RAW: a line with the other direction marker (the gateway's echo of a transmitted frame) is a frame too
         pk = packet(N, client, "valid", src)
         return pk.replace(b" R ", b" T ", 1) if client == "yacht" else pk
+    if kind == "valid_aa55":
+        # a valid frame whose data bytes contain the serial start marker AA 55 (SID 0xAA, heading low byte 0x55)
+        m = dec._decode(127250, 2, src, 255, ts, bytes([0xAA, 0x55, 0x27, 0xFF, 0x7F, 0xFF, 0x7F, 0xFD])[::-1], b"")
+        return _wire(N, enc, client, m)
     if kind in ("valid", "valid2"):
         m = dec._decode(127250 if kind == "valid" else 127251, 2, src, 255, ts,
                         (bytes([src, 0x10, 0x27, 0xFF, 0x7F, 0xFF, 0x7F, 0xFD]) if kind == "valid" else bytes([src, 0x10, 0x27, 0, 0, 0xFF, 0xFF, 0xFF]))[::-1], b"")
@@ -80,6 +84,13 @@ def packet(N, client, kind, src):
             pk[19] ^= 0x33                                 # bad checksum
             return bytes(pk)
         return b"this is not a frame\r\n"
+    if kind == "noise":
+        # stray bytes in front of the next packet (serial line: the tail of a packet that lost bytes); text: a garbage line
+        if client == "waveshare":
+            return b"\x01\x02\x03"
+        if client == "ebyte":
+            return b""          # the EByte link is framed by byte count only: stray bytes are not part of its contract
+        return b"\x01\x02\x03\r\n"
     if kind == "blank":
         if client in ("actisense", "yacht"):
             return b"\r\n"
@@ -205,7 +216,7 @@ def _worker(job):
     client, part = job
     n = 0
     distinct = set()
-    kinds_all = [k for k in KINDS if not (k == "blank" and client in ("ebyte", "waveshare"))]
+    kinds_all = [k for k in KINDS if not (k == "blank" and client in ("ebyte", "waveshare")) and not (k == "noise" and client == "ebyte")]
 
     def h():
         ex = EX()
@@ -234,7 +245,7 @@ def _worker(job):
             seg = ("cut3", a, b, c_)
             cb = ("ok", "ok")
         else:
-            kinds = (("valid", "valid2", "valid"), ("malformed", "valid", "unknown_pgn", "valid2"), ("fast_first", "valid", "valid2"), ("valid", "rejected", "valid2"), ("valid", "unsupported", "valid2"))[ex.choose(5)]
+            kinds = (("valid", "valid2", "valid"), ("malformed", "valid", "unknown_pgn", "valid2"), ("fast_first", "valid", "valid2"), ("valid", "rejected", "valid2"), ("valid", "unsupported", "valid2"), ("valid", "noise", "valid2", "valid"), ("valid", "valid_aa55", "valid2"))[ex.choose(7)]
             total = len(b"".join(packet(N, client, k, 10 + i % 200) for i, k in enumerate(kinds)))
             a = 1 + ex.choose(total - 1)
             if part == "cut1":
